@@ -236,12 +236,15 @@ fn make_case(r: &mut rand::rngs::StdRng, k: usize) -> Case {
         let rmin = table.iter().find(|t| (t.0 == a && t.1 == b) || (t.0 == b && t.1 == a)).map(|t| t.2)
             .unwrap_or(if a >= ENV0 || b >= ENV0 { defaults.0 } else { defaults.1 });
         // size classes: tiny cube next to a big block exercises containment in the loosened box
-        let size = r.gen_range(0..4);
+        let size = r.gen_range(0..6);
         let (ia, ib) = (scene.idx(a), scene.idx(b));
         match size {
             0 => { scene.boxes[ia].h = [1.0, 1.0, 1.0]; scene.boxes[ib].h = [0.005, 0.005, 0.005]; }
             1 => { scene.boxes[ib].h = [0.8, 0.6, 0.7]; scene.boxes[ia].h = [0.01, 0.01, 0.01]; }
             2 => { scene.boxes[ia].h = [0.3, 0.05, 0.2]; scene.boxes[ib].h = [0.25, 0.04, 0.3]; }
+            // a large flat plate and a rod: bodies whose corners are far from their centres
+            4 => { scene.boxes[ia].h = [0.5, 0.02, 0.5]; scene.boxes[ib].h = [0.03, 0.03, 0.03]; }
+            5 => { scene.boxes[ia].h = [0.04, 0.03, 0.6]; scene.boxes[ib].h = [0.4, 0.03, 0.05]; }
             _ => {}
         }
         let rm = rmin.max(0) as f64 / 1e6;
@@ -268,8 +271,10 @@ fn make_case(r: &mut rand::rngs::StdRng, k: usize) -> Case {
             3 => rm * 0.4 + 0.001,       // well inside
             _ => rm + 0.3,               // far
         } };
-        scene.place_next(a, b, gap);
-        class.push_str(&format!("{}{}:size{}:{};", if c > 0 { "+" } else { "" }, category(&(a.min(b) as u64, a.max(b) as u64)), size,
+        // (four placements in ten are at a corner of the first body instead of the middle of its face)
+        let corner = !contained && r.gen_bool(0.4);
+        if corner { scene.place_at_corner(a, b, gap, if r.gen_bool(0.5) { 1.0 } else { -1.0 }, if r.gen_bool(0.5) { 1.0 } else { -1.0 }); } else { scene.place_next(a, b, gap); }
+        class.push_str(&format!("{}{}:size{}{}:{};", if c > 0 { "+" } else { "" }, category(&(a.min(b) as u64, a.max(b) as u64)), size, if corner { "c" } else { "" },
             if rmin <= -1_000_000 { "never" } else if rmin == 0 { "touch" } else { "distance" }));
     }
     // unrelated NEVER entries, incl. pairs naming J1 that must not hide base pairs
